@@ -163,12 +163,12 @@ static void dec_line(int r, int call)
 		if (!dst.data.msg) fputc('-', stdout);
 		for (i = 0; i < (size_t) dst.data.msg; i++) { uint8_t b = store_at(dst.data.pos + i); drv_puthex(stdout, &b, 1); }
 	}
-	printf(" | C guards=%s unread=%s part=", guards ? "ok" : "bad", unread ? "ok" : "bad");
+	printf(" guards=%s unread=%s | C data=%zu,%zu,%zd part=", guards ? "ok" : "bad", unread ? "ok" : "bad",
+	       dst.data.pos, dst.data.len, dst.data.msg);
 	if (dst.data.pos + dst.data.len <= total && dst.data.len) {
 		for (i = 0; i < dst.data.len; i++) { uint8_t b = store_at(dst.data.pos + i); drv_puthex(stdout, &b, 1); }
 	} else fputc('-', stdout);
-	printf(" | I ctx=%zu,%zu curr=%zu pos=%zu len=%zu msg=%zd store=", (size_t) (dst._ctx & 0xff), (size_t) (dst._ctx >> 8),
-	       dst.curr, dst.data.pos, dst.data.len, dst.data.msg);
+	printf(" | I ctx=%zu,%zu curr=%zu store=", (size_t) (dst._ctx & 0xff), (size_t) (dst._ctx >> 8), dst.curr);
 	if (!nseg) fputc('-', stdout);
 	for (i = 0; i < nseg; i++) { if (i) fputc(',', stdout); drv_puthex(stdout, segs[i].data, segs[i].len); }
 	fputc('\n', stdout);
